@@ -208,13 +208,15 @@ int main(int argc, char **argv)
       // GR multicol <add>|raw <spec of the receiving grid> TEXT <file> : the real reader; prints the grid or ERR
       std::string fmt = a[p++];
       bool add = false;
+      bool remap_expected = (fmt == "multicolR");   // the re-gridding loop always ends with the stream at EOF in the failed state
+      if (remap_expected) fmt = "multicol";
       if (fmt == "multicol") add = ni() != 0;
       gspec sp = read_spec(a, p);
       colvar_grid<double> g; fill_grid(g, sp);
       std::istringstream is(text_arg(line));
       cvm::clear_error();
       if (fmt == "multicol") g.read_multicol(is, add); else g.read_raw(is);
-      bool bad = (!is) || (cvm::get_error() != COLVARS_OK);
+      bool bad = ((!is) && !remap_expected) || (cvm::get_error() != COLVARS_OK);
       if (bad) std::cout << "ERR\n"; else print_grid(g);
       cvm::clear_error();
     } else if (cmd == "GF") {
